@@ -94,14 +94,37 @@ func runC08(r *Run) {
 				continue
 			}
 			ok := false
+			trunc := map[ssa.Instruction]bool{}
 			for _, a := range fieldAccesses(reset, fv) {
 				if a.Kind == "store" && truncatingValue(a.Instr.(*ssa.Store).Val, fv) {
 					ok = true
+					trunc[a.Instr] = true
 				}
 			}
 			rs.Instance("Reset|"+fv.Name(), true, map[string]string{"field": fv.Name()})
 			if !ok {
 				rs.Violation(reset, reset.Pos(), "field "+fv.Name()+" not reset", "a reused message keeps the previous message's "+fv.Name())
+				continue
+			}
+			// on every path to every return
+			var badRet *ssa.Return
+			witness := ""
+			q := &PathQuery{P: p, Fn: reset}
+			q.Step = func(in ssa.Instruction, deferred bool, st uint64, c *PathCtx) (uint64, bool) {
+				if trunc[in] {
+					return st | 1, false
+				}
+				return st, false
+			}
+			q.AtReturn = func(ret *ssa.Return, st uint64, c *PathCtx) {
+				if st&1 == 0 && badRet == nil {
+					badRet = ret
+					witness = c.Witness(reset, ret)
+				}
+			}
+			q.Run()
+			if badRet != nil {
+				rs.ViolationPath(reset, instrPos(badRet), "field "+fv.Name()+" not reset on a path", "Reset returns on this path without truncating "+fv.Name()+": a reused message keeps the previous message's "+fv.Name(), witness)
 			}
 		}
 		if build != nil {
@@ -161,6 +184,8 @@ func runC08(r *Run) {
 		sub.Done()
 	}
 	cv.Done()
+	// after Encode the attribute list views the rewritten buffer, not the storage it had before (shared with C03)
+	r.Borrow("C03", map[string]string{"C03.encode": "C08.encode"})
 }
 
 // checkAddCopies: the value parameter of Add is only read.
